@@ -118,6 +118,39 @@ func boundaryCases() []GCase {
 			return obsWith(perf, nil, hist)
 		})})
 	}
+	// 130 candidates at quorum and a previous outcome whose history proposes 50 of them: the ones the cap cuts are NOT
+	// performed this round, so their proposals stay in the history
+	{
+		var surf []GProp
+		for j := 0; j < 100; j += 2 {
+			surf = append(surf, GProp{Kind: 1, Upk: 3000 + j%7, Log: j + 1, Blk: 90, Hash: 4, ExtBlk: 3})
+		}
+		for _, dg := range []int{1, 2} {
+			add(GCase{Family: "cap-130-history-proposes-the-candidates", N: 4, F: 1, Seq: uint64(24 + dg), Digest: dg, PrevKind: 2, Prev: &GOutcome{Surf: [][]GProp{surf}},
+				Obs: nObs(3, func(i int) GObs {
+					var perf []GRes
+					lo, hi := 0, 100
+					if i == 1 {
+						lo, hi = 30, 130
+					}
+					if i == 2 {
+						lo, hi = 15, 115
+					}
+					for j := lo; j < hi; j++ {
+						perf = append(perf, honest(1, 3000+j%7, j+1))
+					}
+					return obsWith(perf, nil, hist)
+				})})
+		}
+	}
+	// two blocks at quorum whose heights are exactly 2^63 apart (and 2^63 - 1, 2^63 + 1): "higher" must stay a total
+	// order on uint64 heights; a new proposal makes the chosen block visible
+	for _, d := range []uint64{1<<63 - 1, 1 << 63, 1<<63 + 1} {
+		d := d
+		add(GCase{Family: "quorum-heights-2^63-apart", N: 4, F: 1, Seq: 26, Digest: 1, Obs: nObs(4, func(i int) GObs {
+			return obsWith(nil, []GProp{{Kind: 1, Upk: 95, Log: 45, Blk: 3, Hash: 9, ExtBlk: 17}}, []GBlock{{Num: 1000 + d, Hash: 6}, {Num: 1000, Hash: 5}, {Num: 999, Hash: 4}})
+		})})
+	}
 	// 100 agreed performables each of which alone exceeds the default report gas limit (5.3M incl. 300k overhead):
 	// one report per performable, never more reports than the advertised maximum
 	add(GCase{Family: "hundred-heavy-performables", N: 4, F: 1, Seq: 22, Digest: 1, Obs: nObs(3, func(i int) GObs {
